@@ -48,7 +48,7 @@ fn key_diagnostics(key: TypeRef) -> Vec<crate::diagnostics::Diagnostic> {
         key_type: key,
         value_type: TypeRef { definition: TypeRefDefinition::Unpatched(Identifier { value: String::new(), span: sp() }), is_optional: false, scope: Scope::default(), attributes: Vec::new(), span: sp() },
     };
-    let mut diagnostics = Diagnostics::verif_with_capacity(2);
+    let mut diagnostics = Diagnostics::new();
     validate_dictionary(&dict, &mut diagnostics);
     core::mem::forget(dict);
     diagnostics.into_inner()
